@@ -568,14 +568,6 @@ class Fn:
             raise Untranslatable(f"paths return different types: {self.ret_t} / {t}")
         return f"(Ok {tup(parts)})"
 
-    def bind_state(self, path, v, env, pre_text):
-        raise NotImplementedError
-
-    def let(self, base, v, rest):
-        """bind v to a fresh name, continue with rest(V)"""
-        nm = self.fresh(base)
-        return f"(let {nm} := {v.s} in\n  {rest(V(nm, v.t, v.x))})"
-
     def block(self, body, env, k):
         """Coq text (type res T) of `body` followed by k(env)."""
         if not body:
@@ -666,8 +658,9 @@ class Fn:
             dp = self.path_of(t.value)
             if dp is None or dp not in env:
                 raise Untranslatable("store into " + ast.unparse(t))
+            v = self.expr(value, env, pre)               # Python evaluates the right-hand side first
             d = self.read(dp, env, pre)
-            kx = self.expr(t.slice, env, pre); v = self.expr(value, env, pre)
+            kx = self.expr(t.slice, env, pre)
             if d.t == "sdict" and kx.t == "Z" and v.t == ENTRY:
                 nm = self.fresh(dp)
                 env[dp] = V(nm, "sdict")
@@ -800,7 +793,6 @@ class Fn:
                         raise Untranslatable(f"EventMap.{f.attr} is not translated")
                     if not m["mutates_self"] or m["ret"] != "emap":
                         raise Untranslatable(f"result of EventMap.{f.attr}() discarded")
-                    saved = dict(env)
                     r = self.invoke(m, f"(emap_of {recv.s})", c, env, pre)
                     nm = self.fresh(rp)
                     env[rp] = V(nm, "pyemap")
@@ -829,7 +821,6 @@ class Fn:
                     nm = self.fresh(rp)
                     env[rp] = V(nm, "mmtrace")
                     return self.wrap(pre, f"(let {nm} := mm_add {recv.s} {call} in\n  {go(env)})")
-            # self-call of a method that stores into self (inside EventMap)
         raise Untranslatable("call statement " + ast.unparse(c)[:100])
 
     def with_stmt(self, st, env, go):
@@ -974,10 +965,10 @@ class Fn:
         for (s, t) in frees:
             if not s.replace("_", "a").isalnum():
                 raise Untranslatable(f"loop body uses the compound outer value {s}")
-            if saved_track is not None:      # nested loop: the inner body's free variables are the outer body's too
-                for v in used:
-                    if id(v) in saved_track[0] and all(v is not u for u in saved_track[1]):
-                        saved_track[1].append(v)
+        if saved_track is not None:          # nested loop: the inner body's free variables are the outer body's too
+            for v in used:
+                if id(v) in saved_track[0] and all(v is not u for u in saved_track[1]):
+                    saved_track[1].append(v)
         ctype = "unit" if not carried else coqt(("tuple", tuple(t for _, t in carried))) if len(carried) > 1 else coqt(carried[0][1])
         sig = " ".join(f"({n} : {coqt(t)})" for n, t in params + frees)
         self.loops.append(
@@ -994,8 +985,6 @@ class Fn:
             env[k] = V(nm, t, env[k].x if k in env else None)
         for nm in targets:
             env.pop(nm, None)           # reading a loop target after the loop is not supported
-        for (s, t) in frees:
-            pass
         call = " ".join([fname] + [p[0] for p in params] + [s for s, _ in frees])
         text = (f"(let! {pat(after) if after else '_'} := fold_res ({call}) {it.s} {tup(init) if init else 'tt'} in\n"
                 f"  {go(env)})")
